@@ -71,7 +71,7 @@ def main():
     rct, outt = sh('cargo test --offline -j 8 2>&1', wt)
     res = summary(outt)
     ran.append({'cmd': 'changed tree: cargo test --offline (existing suite)', 'exit': rct, 'result': res})
-    unit_ok = any(re.search(r'\b36 passed; 0 failed', l) for l in res)
+    unit_ok = any(re.search(r'\b(3[6-9]|[4-9][0-9]) passed; 0 failed', l) for l in res)
     rc1, out1 = (None, '')
     if have_demo:
         os.rename(os.path.join(wt, tname + '.rs.off'), os.path.join(wt, 'tests', tname + '.rs'))
@@ -125,7 +125,7 @@ def append_mode(pid, k, sid, needs, wt, od, diff, demo, append, dflags):
     rct, outt = sh('cargo test --offline -j 8 2>&1', wt)
     res = summary(outt)
     ran.append({'cmd': 'changed tree: cargo test --offline (existing suite)', 'exit': rct, 'result': res})
-    unit_ok = any(re.search(r'\b36 passed; 0 failed', l) for l in res)
+    unit_ok = any(re.search(r'\b(3[6-9]|[4-9][0-9]) passed; 0 failed', l) for l in res)
     with_demo()
     rc1, out1 = sh('cargo test --offline -j 8 %s --lib 2>&1' % dflags, wt)
     fails = [l.strip() for l in out1.split('\n') if re.match(r'^test .* FAILED$', l.strip())]
